@@ -155,7 +155,8 @@ Definition pe_static (pe : pe_data) (address : N) (first : bool) : sclass rule :
                   let n := N.to_nat (rt_end f - address) in
                   if Nat.ltb (length rest) n then Some (SErr _)
                   else
-                    match eparse_sequence (firstn n rest) (ui_fpreg u0) with
+                    match (if local_jump (firstn n rest) address (rt_begin f) (rt_end f) then None
+                           else eparse_sequence (firstn n rest) (ui_fpreg u0)) with
                     | None => None
                     | Some insns =>
                       match rule_for_sequence (map oop_of_einsn insns) with
@@ -294,6 +295,7 @@ Proof.
   destruct ((lo <=? address) && (address <? hi)); [|reflexivity].
   destruct (Nat.ltb (length bytes) (N.to_nat (address - lo))); [reflexivity|].
   destruct (Nat.ltb (length (skipn (N.to_nat (address - lo)) bytes)) (N.to_nat (rt_end f - address))); [reflexivity|].
+  destruct (local_jump _ address (rt_begin f) (rt_end f)); [exact TAIL|].
   destruct (eparse_sequence _ (ui_fpreg u0)) as [insns|]; [|exact TAIL].
   destruct (rule_for_sequence (map oop_of_einsn insns)) as [[r|e|s|]|]; cbn; try exact I; try reflexivity.
   destruct (run_epilog true u0 insns rg m); cbn [fst]; try exact I.
